@@ -77,6 +77,7 @@ func main() {
 	harness := flag.String("harness", "", "debug: explore a single harness function")
 	debug := flag.Bool("debug", false, "debug output")
 	workers := flag.Int("workers", 16, "worker count")
+	budgetS := flag.Int("budget", 600, "debug: wall-clock budget in seconds for -harness")
 	// allow "check C20 --tier quick"
 	args := os.Args[1:]
 	prop := ""
@@ -105,7 +106,7 @@ func main() {
 	e.Debug = *debug
 	if *harness != "" {
 		e.Prop = prop
-		rep := e.Explore(*harness, *workers, []string{"cvc5", "z3-new"}, 20000, 10*time.Minute, 10)
+		rep := e.Explore(*harness, *workers, []string{"cvc5", "z3-new"}, 20000, time.Duration(*budgetS)*time.Second, 10)
 		printReport(rep)
 		return
 	}
@@ -145,6 +146,23 @@ func printReport(rep *sym.Report) {
 		fmt.Println("  SHARED-WRITE", n, k)
 	}
 	fmt.Println("  samples", len(rep.Samples))
+	if len(rep.ForkSites) > 0 {
+		type kv struct {
+			k string
+			n int
+		}
+		var fs []kv
+		for k, n := range rep.ForkSites {
+			fs = append(fs, kv{k, n})
+		}
+		sort.Slice(fs, func(i, j int) bool { return fs[i].n > fs[j].n })
+		for i, f := range fs {
+			if i >= 40 {
+				break
+			}
+			fmt.Printf("  FORKS %6d %s\n", f.n, f.k)
+		}
+	}
 }
 
 type candidate struct {
